@@ -140,6 +140,15 @@ def run_seeded_faults(prop):
         meta = load_json(pth[:-6] + '.json', {})
         if (meta.get('breaks') or [None])[0] == prop:
             cases.append((os.path.basename(pth)[:-6], pth, meta.get('note', '')))
+    cap = int(os.environ.get('PVC_MAX_SEEDED', '10') or 10)
+    skipped = []
+    if len(cases) > cap:
+        # bounded cost: a window of `cap` changes, rotated by the run's seed so that successive thorough runs cover all of them
+        k0 = (int(os.environ.get('VERIF_SEED', '0') or 0) * cap) % len(cases)
+        rot = cases[k0:] + cases[:k0]
+        cases, skipped = rot[:cap], [c[0] for c in rot[cap:]]
+    for name in skipped:
+        out.append({'change': name, 'result': 'not run in this window (PVC_MAX_SEEDED)'})
     for name, patch, summary in cases:
         d = tempfile.mkdtemp(prefix='pvc_seed_')
         evd = tempfile.mkdtemp(prefix='pvc_ev_')
